@@ -27,6 +27,21 @@ Theorem C02_strict_generic : forall m d e, wf_layout m = true -> has_fields m = 
 Proof. exact decode_strict. Qed.
 Print Assumptions C02_strict_generic.
 
+(* hence decoding is injective on complete decodes - two byte strings with the same
+   field values are the same byte string - and an accepted input does not keep its
+   meaning when bytes are appended to it (no slack at the end) *)
+Theorem C02_decode_injective : forall m d d' e, In m registry -> has_fields (m_layout m) = true ->
+  bytes_ok d = true -> bytes_ok d' = true ->
+  decode (m_layout m) d = Ok (e, false) -> decode (m_layout m) d' = Ok (e, false) -> d = d'.
+Proof. exact (fun m d d' e H => decode_injective (m_layout m) d d' e (wf_in m H)). Qed.
+Print Assumptions C02_decode_injective.
+
+Theorem C02_no_slack : forall m d x e, In m registry -> has_fields (m_layout m) = true ->
+  bytes_ok d = true -> bytes_ok x = true -> x <> [] ->
+  decode (m_layout m) d = Ok (e, false) -> decode (m_layout m) (d ++ x) <> Ok (e, false).
+Proof. exact (fun m d x e H => decode_no_slack (m_layout m) d x e (wf_in m H)). Qed.
+Print Assumptions C02_no_slack.
+
 (* every response with a field layout starts with the completion code ... *)
 Theorem C02_rsp_cc_first : forall m f fs, In m registry -> is_rsp m = true ->
   m_layout m = Fields (f :: fs) -> f_kind f = KPlain /\ f_base f = BCC.
